@@ -86,3 +86,9 @@ Example C07_generated_ancestors_nonvacuous :
   NoDup [0%nat; 1%nat; 2%nat] /\ t_trig t = map (fun s => (s, aget_l s (t_trig t))) [0%nat; 1%nat; 2%nat] /\
   ancestors_gen 100 [0%nat; 1%nat; 2%nat] (fun s => aget_l s (t_trig t)) = Some (Some [(1%nat, [(0%nat, z)]); (2%nat, [(1%nat, o); (0%nat, o)])]).
 Proof. vm_compute. repeat split; try reflexivity. repeat constructor; simpl; intuition discriminate. Qed.
+(* the bound, stated of the regenerated get_max_advance itself *)
+From MV Require Sched.SetupTie.
+Theorem C07_generated_max_advance_never_exceeds_until : forall st s i,
+  get_max_advance (view st s i) (nexts (s i)) (cur (s i)) (until st) <= until st.
+Proof. exact MV.Sched.SetupTie.generated_max_advance_le_until. Qed.
+Print Assumptions C07_generated_max_advance_never_exceeds_until.
